@@ -301,7 +301,9 @@ SessionsE(kinds) ==
 (*       as declared / in lower case / in upper case (class names are case  *)
 (*       insensitive).  A valid declaration of the class is available as    *)
 (*       <name>.mof on the search path, so a fresh compiler compiles the    *)
-(*       dependent production; the used one must do the same.               *)
+(*       dependent production; the used one must do the same.  (Not for     *)
+(*       super_self: there the file on the search path would resolve the    *)
+(*       failing production's own superclass.)                              *)
 (*  G    everything again in a namespace entered by pragma: the namespace   *)
 (*       pragma other_full, then every qualifier/class/instance focus       *)
 (*       production (valid variants, value and dependency defects)          *)
